@@ -380,6 +380,32 @@ def check_restart_point(ctx, methods):
                             and isinstance(st.value, ast.Name):
                         cands.append((fi, st, st.value.id))
     if not cands:
+        # second form: the saved start point is HANDED to the restarted search - `return self.<same>(.., X)` into a parameter P that the method
+        # falls back from only when it is None (`if P is None: P = model.potentials`)
+        recs = []
+        for name, fi in methods.items():
+            for r in ast.walk(fi.node):
+                if isinstance(r, ast.Return) and isinstance(r.value, ast.Call) and U(r.value.func) == 'self.' + name:
+                    recs.append((fi, r))
+                    c = r.value
+                    params = fi.params[1:]
+                    bound = dict(zip(params, c.args))
+                    bound.update({k.arg: k.value for k in c.keywords if k.arg})
+                    for P, a in bound.items():
+                        if not isinstance(a, ast.Name) or a.id != P:
+                            continue
+                        falls_back = any(isinstance(i_, ast.If) and U(i_.test).replace(' ', '') == '%sisNone' % P and len(i_.body) == 1 and isinstance(i_.body[0], ast.Assign)
+                                         and U(i_.body[0].targets[0]) == P and U(i_.body[0].value).endswith('.potentials') for i_ in fi.body)
+                        rebinds = [x for x in ast.walk(fi.node) if isinstance(x, ast.Assign) and any(U(t_) == P for t_ in x.targets)]
+                        if falls_back and len(rebinds) == 1:
+                            cands.append((fi, r, P))
+        if not cands and recs:
+            fi, r = recs[0]
+            ctx.ob('restart-point', fi, r, False, 'the restarted search begins from `model.potentials`, but the restart neither puts the saved start point back there nor '
+                   'hands it on: an oracle that keeps the parameters it was last called with (FactorGraph.loopy_belief_propagation stores them in '
+                   '`self.potentials`) makes the restart begin from the rejected, diverged step', construct='restart point of ' + fi.name)
+            return
+    if not cands:
         raise AnalysisError('LocalInference: restart of the line search (`model.potentials = X; return self.<same method>(...)`) not found')
     cv = repo.methods('src/mbi/clique_vector.py', 'CliqueVector')
     for fi, store, X in cands:
